@@ -443,15 +443,33 @@ class Gen:
 
     def switch(self):
         r = self.rng
-        vals = r.sample([0, 1, 2, 3, 5, 8, 100, 255], r.randint(1, 3))
+        vals = r.sample([0, 1, 2, 3, 5, 8, 100, 255], r.randint(1, 4))
         cases = []
-        for v in vals:
+        while vals:
+            # one or (sometimes) two values per case
+            vs = [vals.pop()]
+            if vals and r.random() < 0.25:
+                vs.append(vals.pop())
             body = self.stmts(r.randint(1, 2), in_loop=False)
             if r.random() < 0.75:
                 body.append(('break',))
-            cases.append(([v], body))
+            cases.append((vs, body))
         default = self.stmts(1, in_loop=False) if r.random() < 0.5 else None
-        return ('switch', ('var', r.choice(self.chars)), cases, default)
+        # the selector: a variable, a register, an array element, or a computed value (which the
+        # generator keeps in the accumulator across all the case tests)
+        k = r.random()
+        if k < 0.5:
+            sel = ('var', r.choice(self.chars))
+        elif k < 0.65:
+            sel = self.atom()
+            if sel[0] == 'num':
+                sel = ('var', r.choice(self.chars))
+        else:
+            v = ('var', r.choice(self.chars))
+            sel = r.choice([('bin', '&', v, ('num', r.choice([1, 3, 7, 15]))), ('bin', '+', v, ('num', 1)),
+                            ('bin', '>>', v, ('num', r.randint(1, 6))), ('bin', '-', v, self.atom()),
+                            ('bin', '^', self.atom(), v)])
+        return ('switch', sel, cases, default)
 
     def stmt(self, in_loop=False):
         r = self.rng
